@@ -27,7 +27,7 @@ ASSUMPTIONS = [
     "default on an AnyField (the caller's object is handed out like a mutable default argument) and mutable items "
     "nested inside an untyped container default (only the container is copied) are not mutated by the harness",
 ]
-REQUIRED = ["equal-twins:take-over+edit", "filled-from-tree", "include-load", "serialize", "cross-assign+edit", "cross-assign+edit:list", "cross-assign+edit:dict", "observer:before", "observer:middle", "observer:after", "inplace:typed", "inplace:untyped", "shared-item-type", "dynamic-add"]
+REQUIRED = ["same-document", "equal-twins:take-over+edit", "filled-from-tree", "include-load", "serialize", "cross-assign+edit", "cross-assign+edit:list", "cross-assign+edit:dict", "observer:before", "observer:middle", "observer:after", "inplace:typed", "inplace:untyped", "shared-item-type", "dynamic-add"]
 LEVEL_TEXT = (
     "Generated schemas and histories on one instance with an untouched observer instance and a frozen schema "
     "snapshot as oracle; kills mutants that stop copying default containers, register dynamic fields on the "
@@ -209,7 +209,99 @@ def _fill_observer(world, b, case):
                 continue
 
 
+def exhaustive(tier):
+    """Two configurations of one schema load the SAME document (byte for byte), in every format and through every load
+    route, in each order relative to in-place edits of what the first one holds."""
+    for fmt in ("json", "yaml", "xml", "bson", "pickle"):
+        for route in ("loads", "load-file", "load_tree-of-decoded"):
+            for order in ("A-B-edit", "A-edit-B", "A-edit-A2"):
+                for repeat in (1, 3):
+                    yield {"mode": "same-document", "fmt": fmt, "route": route, "order": order, "repeat": repeat}
+
+
+def _same_document_case(case, R):
+    import copy
+    cc = sandbox._state["cc"]
+    fmt, route, order = case["fmt"], case["route"], case["order"]
+    R.label("same-document", "same-document:" + fmt)
+    R.nontrivial = True
+    content = {"plain": [1, "a", [2, 3], {"k": [4]}], "table": {"x": 1, "inner": {"y": [5]}, "seq": [6]}, "free": {"deep": [7, {"z": 8}]},
+               "typed": [1, 2], "sub": {"items": ["p"], "opts": {"o": 1}, "extra": [9, [10]]}, "extra_root": {"dyn": [11]}}
+    schema = cc.Schema(dynamic=True)
+    schema.plain = cc.ListField()
+    schema.table = cc.DictField()
+    schema.free = cc.AnyField()
+    schema.typed = cc.ListField(cc.IntField())
+    schema.sub = cc.Schema(dynamic=True)
+    schema.sub.items = cc.ListField()
+    schema.sub.opts = cc.DictField()
+    fmtr = cc.ConfigFormat.get(fmt)
+    with sandbox.CaseDir() as d:
+        doc = fmtr.dumps(schema(), copy.deepcopy(content))
+        target = os.path.join(d, "same." + fmt)
+        with open(target, "wb") as fp:
+            fp.write(doc)
+
+        def load():
+            cfg = schema()
+            for _ in range(case["repeat"]):
+                if route == "loads":
+                    cfg.loads(bytes(doc), fmt)
+                elif route == "load-file":
+                    cfg.load(target, fmt)
+                else:
+                    cfg.load_tree(cc.ConfigFormat.get(fmt).loads(cfg, bytes(doc)))
+            return cfg
+
+        def view(cfg):
+            return copy.deepcopy({"plain": list(cfg.plain), "table": dict(cfg.table), "free": cfg.free, "typed": list(cfg.typed),
+                                  "sub": {"items": list(cfg.sub.items), "opts": dict(cfg.sub.opts), "extra": cfg.sub["extra"]}, "extra_root": cfg["extra_root"]})
+
+        def edit(cfg):
+            cfg.plain.append("edited")
+            cfg.plain[2].append("edited")
+            cfg.plain[3]["k"].append("edited")
+            cfg.table["edited"] = 1
+            cfg.table["inner"]["y"].append("edited")
+            cfg.table["seq"].append("edited")
+            cfg.free["deep"].append("edited")
+            cfg.free["deep"][1]["z"] = "edited"
+            cfg.typed.append(99)
+            cfg.sub.items.append("edited")
+            cfg.sub.opts["edited"] = 1
+            cfg.sub["extra"].append("edited")
+            cfg.sub["extra"][1].append("edited")
+            cfg["extra_root"]["dyn"].append("edited")
+        try:
+            a = load()
+            want = view(a)
+        except Exception as exc:
+            R.fail("crash", "same-document:" + fmt, "loading the document raised %r" % (exc,))
+            return
+        if want != content:
+            R.label("same-document:format-changes-content")  # (what a format does to the tree is C04's business)
+        if order == "A-B-edit":
+            b = load()
+            edit(a)
+            got = view(b)
+            R.check(got == want, "isolated", "same-document:%s:%s" % (fmt, order),
+                    lambda: "A and B loaded the same %s document (%s); in-place edits of A's values changed B: %r" % (fmt, route, worlds.diff(want, got) if hasattr(worlds, "diff") else got))
+        else:
+            edit(a)
+            b = load()
+            got = view(b)
+            R.check(got == want, "isolated", "same-document:%s:%s" % (fmt, order),
+                    lambda: "A loaded a %s document (%s) and edited its values in place; B then loaded the same document and sees the edits: %r" % (fmt, route, got))
+            if order == "A-edit-A2":
+                edit(b)
+                c = load()
+                got = view(c)
+                R.check(got == want, "isolated", "same-document:%s:%s:third" % (fmt, order), lambda: "a third load of the same document shows %r" % (got,))
+
+
 def run_case(case, R):
+    if case.get("mode") == "same-document":
+        return _same_document_case(case, R)
     cc = sandbox._state["cc"]
     spec = case["spec"]
     with sandbox.CaseDir() as d:
